@@ -367,11 +367,12 @@ def run_long_span(ctx, case):
                               np.cumsum(rng.choice([600, 1800, 3600, 9000], size=30))])
     c2 = t0 + span + np.concatenate([[0], np.cumsum(rng.choice([600, 1800, 3600, 9000],
                                                                size=30))])
-    c2 = c2 + c1[0]
+    c2 = c2 + (c1[0] - t0)
     stamps = np.concatenate([c1, c2]).astype(np.int64)
     vals = rng.integers(0, 40, size=len(stamps)) / 4.0
     ctx.evaluated()
-    ctx.tag("record-longer-than-2^31-seconds")
+    if int(stamps[-1] - stamps[0]) >= 2 ** 31:
+        ctx.tag("record-longer-than-2^31-seconds")
     ctx.api("var2h")
     se = build_series(stamps, vals, unit, tz)
     try:
